@@ -476,7 +476,7 @@ func TestBoundedC01Fits(t *testing.T) {
 	}
 	// nested patterns: one more level around the depth-1 patterns, restricted leaves
 	if !thorough() {
-		for _, p := range values(2, []J{1.0, "?x", "??o"}, 2) {
+		for _, p := range values(2, []J{1.0, "?x", "??o", "?"}, 2) {
 			if supported(p) {
 				patterns = append(patterns, p)
 			}
@@ -492,7 +492,7 @@ func TestBoundedC01Fits(t *testing.T) {
 		fmt.Printf("COUNT C01 patterns=%d messages=%d inits=%d\n", len(patterns), len(messages), len(inits))
 		return
 	}
-	st.Bound = fmt.Sprintf("patterns: depth<=%d over leaves %s (+depth 2 over a reduced leaf set in quick), supported fragment; messages: depth<=2 over keys {a,b}, arrays<=2; %d initial binding sets", depth, js(pleaves), len(inits))
+	st.Bound = fmt.Sprintf("patterns: depth<=%d over leaves %s (+depth 2 over the leaves [1,\"?x\",\"??o\",\"?\"] in quick), supported fragment; messages: depth<=2 over keys {a,b}, arrays<=2; %d initial binding sets", depth, js(pleaves), len(inits))
 	// the pattern space is sharded over the cores; every shard keeps its own tallies
 	shard := func(ps []J) *stats {
 		st := &stats{}
